@@ -43,6 +43,7 @@ package vestingsc
 //@ func (*destination).unlock
 //@   prop C16
 //@   requires d != nil && d.Vested <= d.Amount && d.Move >= 0 && now >= 0 && end >= 0
+//@   dead-paths 1 -- left() cannot fail when Vested <= Amount
 //@   ensures[within-left] err == nil ==> amount <= old(d.Amount) - old(d.Vested)
 //@   ensures[vested-le-amount] d.Vested <= d.Amount
 //@   ensures d.Vested >= old(d.Vested) && d.Amount == old(d.Amount)
@@ -64,6 +65,7 @@ package vestingsc
 //@ func (*vestingPool).drain
 //@   prop C16
 //@   requires vp != nil && t != nil && (forall i in 0..len(vp.Destinations) :: vp.Destinations[i] != nil)
+//@   dead-paths 1 -- DrainPool cannot fail: the excess never exceeds the balance
 //@   ensures err == nil ==> t.ClientID == vp.ClientID
 //@   ensures err == nil ==> $ntr == old($ntr) + 1 && $in[t.ClientID] - old($in[t.ClientID]) == old(vp.Balance) - vp.Balance
 //@   ensures err == nil ==> vp.Balance < old(vp.Balance)
